@@ -150,7 +150,7 @@ def random_scenarios(c, n, first_tr, big=False):
 
 
 def recycle_scenarios(c, first_tr):
-    """thorough tier: the recycle clause needs the library's real timers (RecycleIntervalS = 1)"""
+    """the recycle clause needs the library's real timers (RecycleIntervalS = 1)"""
     rng = c.rng
     out = []
     tr = first_tr
@@ -182,6 +182,16 @@ def recycle_scenarios(c, first_tr):
     out.append(s)
     # R2: two probes needed; the first successful probe completes at a half-open `a': a stays (half-open), zz goes
     s = base(probe=2)
+    for n in ['a'] + extra:
+        fail(s, n)
+    fail(s, 'zz')
+    s.append(dict(op='req', id=1)); s.append(dict(op='done', id=1, node='ok', err=False))
+    s.append(dict(op='tick', d=3000))
+    s.append(dict(op='req', id=1)); s.append(dict(op='done', id=1, node='a', err=False))
+    s += [dict(op='req', id=1), dict(op='wait', sentinel='zz')]
+    out.append(s)
+    # R5: default probe number: the single successful probe completes at a half-open `a' and closes its breaker: a stays, zz goes
+    s = base(probe=0)
     for n in ['a'] + extra:
         fail(s, n)
     fail(s, 'zz')
@@ -428,9 +438,9 @@ def check(c, tier, replay):
                 binding_selftest(c, tp)
             all_traces += split(read_ndjson(tp))
             handle_mismatches(c, drv, part, mism, tag)
-    if thorough:
+    if True:   # (the recycle scenarios use the library's real 1 s timers: one repetition in quick, four in thorough)
         rec = []
-        for rep in range(4):
+        for rep in range(4 if thorough else 1):
             rec += recycle_scenarios(c, tr)
             tr += 10
         # one driver process per scenario: the real-time guard of `wait' is per process start
